@@ -29,9 +29,9 @@ from coba.context import CobaContext, NullLogger, MemoryCacher
 from coba.environments import Environments
 from coba.environments import filters as ef
 from coba.pipes import Pipes
-from coba.exceptions import CobaExit
+from coba.exceptions import CobaExit, CobaException
 
-from vf.lib.c04_pipelines import (Built, SHORTCUTS, DUO_PAIRS, DUO_PAIRS_MORE, duo_compatible, apply_shortcut, SOURCES, SRC_BIG, FILTERS, FILTERS_ONE, FILTERS_STATEFUL, build_source, make_filter, compatible,
+from vf.lib.c04_pipelines import (defaults_changed, defaults_restore, tiny_env, SRC_LIN, LIN_PAIRS, Built, SHORTCUTS, DUO_PAIRS, DUO_PAIRS_MORE, duo_compatible, apply_shortcut, SOURCES, SRC_BIG, FILTERS, FILTERS_ONE, FILTERS_STATEFUL, build_source, make_filter, compatible,
                                   cinter, cparams, flavour, snapshot, src_mem)
 
 warnings.simplefilter('ignore')
@@ -47,6 +47,7 @@ A_BIG = ['full', 'p1', 'p30', 'mat', 'cache', 'chunk']      # the 40-interaction
 A_BIG_RAW = ['full', 'p1', 'p30', 'pickle']
 A_HUGE = ['full', 'p1', 'save']                              # the 1001-interaction source (save writes batches of 1000)
 PARTS = {'p1': 1, 'p3': 3, 'p30': 30}
+A_PAIR = ['full@0', 'full@1', 'params@0', 'params@1']      # two environments, full reads and params interleaved
 A_FAN = ['full@0', 'full@1', 'p1@0', 'p1@1', 'params@0', 'params@1']
 READS = {'full', 'p1', 'p3', 'p30', 'mat', 'save'}           # operations that pull interactions through the pipeline
 KIND = {'p1': 'part', 'p3': 'part', 'p30': 'part'}                   # op -> kind used in finding keys
@@ -71,6 +72,7 @@ def _fresh_process_state():
         ef.Grounded.GroundedFeedback.__call__.cache_clear()
     except AttributeError:
         pass
+    defaults_restore()         # mutable default argument objects hold what a fresh interpreter would hold
 
 
 _reset_context()
@@ -143,7 +145,13 @@ class C04(Check):
             f'environments (4 | 8 pairs of sources with other data / length / kind) x {len(SHORTCUTS)} facade shortcuts (cache, chunk, materialize, shuffle, take, '
             'slice, scale, impute, sparse, dense, repr, noise, batch, logged, grounded, params, ... and five two-step combinations with cache/chunk) each '
             'applied once to the collection: all histories <=3 | <=4 over {full,p1,params} x {member 0,1}, every member compared with a fresh twin of that '
-            'member alone. '
+            'member alone; parameter objects: 9 LinearSynthetic variants (no context / no action features, reward_features defaulted or caller-passed, direct and '
+            'through Environments.from_linear_synthetic) alone (all histories <=2 | <=3) and as the first of two environments in one Environments object next to an '
+            'ordinary default-argument environment (13 pairs x {plain, cache()}: all histories <=3 | <=4 over {full,params} x {member 0,1}); after EVERY step of EVERY '
+            'history all list/dict/set default-argument objects of coba\'s environment/pipe code must hold what they held at import; save files: one collection '
+            'of 12 | 13 tiny environments, save(first k) then save(first m>=k) onto the same file for every k<=m (member names pass 9->10->11), and every pair of '
+            'index ranges of 4 | 5 environments x overwrite in {False,True}: what save() and from_save() return must contain every saved environment (equal to its '
+            'twin alone) and nothing else, and the members handed out by the first save still read the same. '
             'A history is non-trivial when the reference read is non-empty and the history pulls interactions through the pipeline at least twice')
     ASSUMPTIONS = [
         'params before the first completed full read of the object at hand are not constrained (environments may learn params lazily); afterwards they must equal the params a fresh pipeline reports after its first read',
@@ -156,6 +164,10 @@ class C04(Check):
         'two iterators of the same environment alive at the same time are outside the alphabet (an abandoned iterator is dropped and collected before the next operation)',
         'a consumer that modifies the interaction dicts it was handed is outside the alphabet (so whether Cache hands out copies is not observable here)',
         'None seeds and one-shot (non re-iterable) inputs are outside the alphabet',
+        'save() onto an existing file is explored for sub-collections of ONE collection of environments with distinct params; a file written from DIFFERENT environments that '
+        'report equal params (coba identifies saved environments by params only; e.g. linear synthetic params omit n_interactions) is outside the alphabet; a mismatch '
+        'without overwrite may be rejected with CobaException; the order of the members of a returned collection is not constrained',
+        'sources that raise in the middle of a read (e.g. what pipes.Cache keeps after such a failure) are outside the alphabet',
         'after save()/from_save() the reference stays the same (the facade applies Finalize once more to finalized data)',
     ]
     TECHNIQUE = ('explicit-state exploration of operation histories on one real environment object: all histories over the operation alphabet up '
@@ -210,8 +222,16 @@ class C04(Check):
         # operations on the two members interleaved; each member must behave like a fresh twin of that member alone
         for a, b in (DUO_PAIRS if quick else DUO_PAIRS + DUO_PAIRS_MORE):
             for sc in SHORTCUTS:
-                if duo_compatible(a, b, sc):
+                if sc != 'none' and duo_compatible(a, b, sc):
                     yield {'src': a, 'src2': b, 'short': sc, 'duo': True, 'chain': [], 'facade': True}, [(A_FAN, d1, None)]
+        # caller-owned / defaulted parameter objects: linear synthetic environments without context / action features, reward_features
+        # defaulted or passed by the caller; alone, and next to an ordinary environment that relies on the default arguments
+        for s in SRC_LIN:
+            yield {'src': s, 'chain': [], 'facade': False}, [(A_RAW, d1 - 1, None)]
+            yield {'src': s, 'chain': [], 'facade': True}, [(A_FAC7, d1 - 1, None)]
+        for a, b in LIN_PAIRS:
+            for sc in ('none', 'cache'):
+                yield {'src': a, 'src2': b, 'short': sc, 'duo': True, 'chain': [], 'facade': True}, [(A_PAIR, d1, None)]
         if quick:       # chains of two: every ordered pair of filter classes (one parameterisation each) on four sources
             for s in SRC_FEW:
                 for f in FILTERS_ONE:
@@ -236,6 +256,23 @@ class C04(Check):
                     c = dict(pipe, ops=ops, depth=depth, first=first)
                     if need: c['need'] = need
                     yield c
+        yield from self.save_scenarios(tier)
+
+    @staticmethod
+    def save_scenarios(tier):
+        """save() of a sub-collection of ONE collection of tiny environments onto the save file of another sub-collection of it:
+        every nested pair of prefixes of 12 (13) environments (the member names pass 9 -> 10 -> 11), and every pair of index ranges
+        of 4 (5) environments with and without overwrite."""
+        n = 12 if tier == 'quick' else 13
+        for k in range(1, n + 1):
+            for m in range(k, n + 1):
+                yield {'scenario': 'saves', 'n': n, 's1': [0, k], 's2': [0, m], 'overwrite': False}
+        n = 4 if tier == 'quick' else 5
+        ranges = [[a, b] for a in range(n) for b in range(a + 1, n + 1)]
+        for r1 in ranges:
+            for r2 in ranges:
+                for ow in (False, True):
+                    yield {'scenario': 'saves', 'n': n, 's1': r1, 's2': r2, 'overwrite': ow}
 
     # -------------------------------------------------------------- building
     def setup(self, tier):
@@ -291,6 +328,7 @@ class C04(Check):
         try:
             refs, prms, raw = [], [], None
             for j in range(2 if (pipe.get('fan') or pipe.get('duo')) else 1):
+                if 'mem' not in pipe: _fresh_process_state()
                 st = self.build(dict(pipe, solo=j) if pipe.get('duo') else pipe)     # a fresh twin per sibling / of that member ALONE: its first read is undisturbed
                 env = st.sibs[j] if st.sibs else st.env
                 raw = list(env.read())
@@ -368,6 +406,9 @@ class C04(Check):
         if now != st.snap:
             names = sorted(k for k in now if now[k] != st.snap.get(k))
             raise Fail(f'caller-owned data modified: {", ".join(names)}', f'{names[0]}: {st.snap[names[0]]!r:.200} -> {now[names[0]]!r:.200}', i)
+        changed = defaults_changed()
+        if changed:
+            raise Fail(f'a shared default argument object was modified: {", ".join(changed)}', 'every later call that relies on the default sees the modified object', i)
         return None
 
     def run_history(self, pipe, hist, refs, ref_params, acc=None, final_params=False):
@@ -408,6 +449,7 @@ class C04(Check):
         """Failure modes that one root cause typically shows as, depending on which operation trips over it."""
         if mode.startswith('read yields'): return 'yields'
         if ' raises ' in mode: return 'raises'
+        if mode.startswith('caller-owned data modified'): return 'caller-owned'
         return mode
 
     def fails_like(self, pipe, hist, fam):
@@ -491,6 +533,12 @@ class C04(Check):
         if pipe.get('duo'):
             fam = self.family(fail.mode)
             short = pipe['short']
+            touched = {op_split(o)[1] for o in hist}
+            if len(touched) == 1:                      # only one member involved: does that environment alone fail the same way?
+                pipe1 = {'src': pipe['src2' if touched == {1} else 'src'], 'chain': [], 'facade': True}
+                hist1 = [op_split(o)[0] for o in hist]
+                f1 = self.fails_like(pipe1, hist1, fam)
+                if f1 is not None: return self.classify(pipe1, hist1, f1)
             for part in short.split('_'):              # a two-step shortcut: does one of its steps alone fail the same way?
                 if part != short and part in SHORTCUTS:
                     f2 = self.fails_like(dict(pipe, short=part), hist, fam)
@@ -501,6 +549,8 @@ class C04(Check):
                 if op_split(o)[1] not in names: names[op_split(o)[1]] = 'ab'[len(names)]
             kinds = ','.join(KIND.get(op_split(o)[0], op_split(o)[0]) + '@' + names[op_split(o)[1]] for o in hist) or 'none'
             mode = 'a member\'s read differs from a fresh twin of that member alone' if fam == 'yields' else fail.mode
+            if short == 'none':
+                return f"Environments({SOURCES[pipe['src']][1]}, {SOURCES[pipe['src2']][1]})|{mode}|history={kinds}", hist, pipe
             return f"Environments.{short}() on a collection of two environments|{mode}|history={kinds}", hist, pipe
         if pipe.get('fan') and hist:
             # the same failure on the plain pipeline  ... > Shuffle(seed of the sibling read last)  ?
@@ -517,7 +567,67 @@ class C04(Check):
         return f'{comp}|{kfail.mode}|{"; ".join(feat)}', hist, pipe
 
     # -------------------------------------------------------------- a case = all histories of one pipeline starting with one operation
+    def run_saves(self, case, acc):
+        n, (a, b), (c, d), ow = case['n'], case['s1'], case['s2'], case['overwrite']
+        s1, s2 = set(range(a, b)), set(range(c, d))
+        rel = 'equal to' if s1 == s2 else 'a superset of' if s1 < s2 else 'a subset of' if s2 < s1 else 'overlapping' if s1 & s2 else 'disjoint from'
+        feat = f'second collection {rel} the first; overwrite={ow}; file holds {">10" if len(s1) > 10 else "<=10"} environments'
+        K = lambda mode: f'Environments.save() onto an existing save file|{mode}|{feat}'
+        _fresh_process_state(); _reset_context()
+        refs = []
+        for j in range(n):                                         # fresh twins: each environment alone
+            env = Environments(tiny_env(j))[0]
+            refs.append(([cinter(x) for x in env.read()], cparams(env.params)))
+        self._zipn += 1
+        path = os.path.join(self._scratch(), f'saves{self._zipn}.zip')
+
+        def members(ret):
+            out = []
+            for i in range(len(ret)):
+                env = ret[i]
+                items = [cinter(x) for x in env.read()]
+                out.append((items, cparams(env.params)))
+            return out
+
+        def check(ret, required, allowed, what):
+            got = members(ret); acc.transitions += len(got)
+            for g in got:
+                if not any(g == refs[j] for j in allowed):
+                    return acc.violation(K(f'a member of the {what} collection reads like none of the saved environments'), f'{g!r:.300}', case)
+            for j in sorted(required):
+                if not any(g == refs[j] for g in got):
+                    return acc.violation(K(f'an environment of the saved collection is missing from the {what} collection'),
+                                         f'environment {j} of {sorted(required)} is not among the {len(got)} members (params {[g[1] for g in got]!r:.300})', case)
+            return True
+
+        try:
+            E = [tiny_env(j) for j in range(n)]                    # ONE collection of fresh objects; both saves take sub-collections of it
+            acc.states += 3; acc.transitions += 2
+            try:
+                ret1 = Environments(E[a:b]).save(path)
+                if check(ret1, s1, s1, 'first returned') is not True: return
+                try:
+                    ret2 = Environments(E[c:d]).save(path, overwrite=ow)
+                except CobaException as e:
+                    if not ow and not s1 <= s2:                    # documented rejection: the file does not match and overwrite is False
+                        acc.outcome('saves:rejected'); acc.traces += 1; return
+                    return acc.violation(K(f'raises {type(e).__name__}'), repr(e), case)
+                if check(ret2, s2, s1 | s2, 'returned') is not True: return
+                if check(Environments.from_save(path), s2, s1 | s2, 'from_save') is not True: return
+                if s1 <= s2:                                       # the file was continued: the objects handed out earlier must still read the same
+                    if check(ret1, s1, s1, 'earlier returned (re-read)') is not True: return
+            except ERRORS as e:    # noqa
+                _reset_context()
+                return acc.violation(K(f'raises {type(e).__name__}'), repr(e), case)
+            acc.traces += 1
+            acc.outcome(f'saves:{rel}:{ow}')
+            if acc._cur: acc.nontrivial.add((acc._cur[0] << 20) | 1)
+        finally:
+            try: os.unlink(path)
+            except OSError: pass
+
     def run_case(self, case, acc):
+        if case.get('scenario') == 'saves': return self.run_saves(case, acc)
         pipe = {k: case[k] for k in ('src', 'src2', 'short', 'duo', 'chain', 'facade', 'fan') if k in case}
         if 'hist' in case:                                     # replay of one history
             return self.replay_history(pipe, case['hist'], acc)
